@@ -34,7 +34,7 @@ P("C03",
   technique="model-based PBT: generated placements of chain certificates into typed named stores x statement store lists; set-semantics oracle + call-log invariant of an instrumented trust store; scripted and real directory-backed stores; verifier instances reused across verifications; eight goroutines verifying through one verifier over the real store against the sequential model; generated store names that reach other directories (constructor, late edit, direct store call); blob statement selection by generated names against a three-statement document; store contents rotated under a living verifier",
   level_text="Exploration: authenticity verdict and the exact (type,name) sequence of trust-store loads compared with a set-semantics model over generated placements, multi-statement documents, both schemes and formats.",
   level_note="Trusts the instrumented trust store mock; a sub-family runs against the real directory-backed store.",
-  health={"auth=pass": 30, "auth=fail": 30, "decoy-wrong-type": 10, "decoy-unlisted": 10, "decoy-other-statement": 10, "listed-store-error": 10, "real-directory-store": 10, "verification-plugin=ti": 100, "scope-case-twin-selected": 100, "plugin-runs-after-logged-authenticity-failure": 50, "concurrent-verifications": 1, "listed-store-is-symlink": 50, "listed-store-bundle-ends-in-leaf": 50, "store-name-reaching-elsewhere": 100, "name-route=late": 30, "name-route=direct": 15, "blob-unknown-name-with-global-statement-present": 30, "store-contents-rotated-on-long-lived-verifier": 200, "trust-withdrawn-by-rotation": 30, "listed-store-holds-sub-directory": 20, "listed-store-is-an-empty-directory": 20})
+  health={"auth=pass": 30, "auth=fail": 30, "decoy-wrong-type": 10, "decoy-unlisted": 10, "decoy-other-statement": 10, "listed-store-error": 10, "real-directory-store": 10, "verification-plugin=ti": 100, "scope-case-twin-selected": 100, "plugin-runs-after-logged-authenticity-failure": 50, "concurrent-verifications": 1, "listed-store-is-symlink": 50, "listed-store-bundle-ends-in-leaf": 50, "store-name-reaching-elsewhere": 100, "name-route=late": 30, "name-route=direct": 15, "blob-unknown-name-with-global-statement-present": 30, "store-contents-rotated-on-long-lived-verifier": 200, "constructor=legacy-decoy": 200, "trust-withdrawn-by-rotation": 30, "listed-store-holds-sub-directory": 20, "listed-store-is-an-empty-directory": 20})
 
 P("C04",
   technique="model-based + metamorphic PBT: structured subject/identity generators, own RFC 4514 renderer with generated spacing/alias/escaping; subset oracle on structured data; permutation/spacing/alias invariance; identity lists edited after construction (one-sided oracle); verifier reuse across an OCI and a same-named blob statement; eight goroutines verifying two signers under six statements of one verifier against the statement's table",
@@ -44,16 +44,16 @@ P("C04",
   fuzz=[{"name": "FuzzC04_Identities", "seconds": 180}])
 
 P("C05",
-  technique="bounded-exhaustive enumeration of all result vectors {OK,NonRevokable,Unknown,Revoked}^n, n<=4 x action x interface x scheme, plus rapid-generated decorations; aggregation oracle + received-options check of a scripted validator; generated chain shapes (empty leaf subject, expired non-leaf), context cancelled by the scripted validator, optional identity-only plugin, trust anchors other than the root, a same-named blob statement with another revocation action verified first",
+  technique="bounded-exhaustive enumeration of all result vectors {OK,NonRevokable,Unknown,Revoked}^n, n<=4 x action x interface x scheme, plus rapid-generated decorations; aggregation oracle + received-options check of a scripted validator; generated chain shapes (empty leaf subject, expired non-leaf), context cancelled by the scripted validator, optional identity-only plugin, trust anchors other than the root, a same-named blob statement with another revocation action verified first, signing times ahead of the clock, intermediates sharing a subject",
   level_text="Exhaustive over the 340 result vectors x {enforce,log,skip} x both validator interfaces x both schemes (finite space, fully enumerated), sampled over method annotations and server errors.",
   level_note="Trusts the scripted validator to record the options it received; result vectors have the chain's length (validator contract).",
-  health={"final=ok": 10, "final=revoked": 10, "final=unknown": 10, "validator-error": 5, "action=skip": 10, "iface=client": 10, "subjects=empty-leaf": 100, "context-cancelled-during-check": 50, "validity=expired-nonleaf": 100, "identity-only-plugin": 100, "decor=6": 100, "trust-anchor-is-not-the-root": 200, "blob-twin-revocation=skip": 50})
+  health={"final=ok": 10, "final=revoked": 10, "final=unknown": 10, "validator-error": 5, "action=skip": 10, "iface=client": 10, "subjects=empty-leaf": 100, "context-cancelled-during-check": 50, "validity=expired-nonleaf": 100, "identity-only-plugin": 100, "decor=6": 100, "trust-anchor-is-not-the-root": 200, "blob-twin-revocation=skip": 50, "signing-time-ahead-of-the-verifier": 200, "subjects=same-subject-cas": 50})
 
 P("C06",
-  technique="model-based PBT: generated expiry/signing-time/validity-window placements and RFC 3161 countersignatures from an in-process TSA; decision model of the statement; both-sides-data boundaries tested exactly; generated revocation action, constructor and trust-store implementation (scripted / directory-backed)",
+  technique="model-based PBT: generated expiry/signing-time/validity-window placements and RFC 3161 countersignatures from an in-process TSA; decision model of the statement; both-sides-data boundaries tested exactly; generated revocation action, constructor and trust-store implementation (scripted / directory-backed); countersignatures replayed from an envelope verified earlier; TSA paths through a purpose-restricted CA",
   level_text="Exploration over time placements (margins around the wall clock, exact boundaries where both sides are data) and countersignature situations produced by an in-process TSA.",
   level_note="Trusts the in-process TSA port and tspclient-go's CMS verification; no assertion at exact wall-clock instants.",
-  health={"expiry=past": 10, "expiry=future": 10, "scheme=sa": 20, "tsa=applies": 30, "token=valid": 10, "token=absent": 5, "token=wrong-imprint": 5, "token=untrusted-tsa": 5, "ts=pass": 10, "ts=fail": 10, "token=ca-as-tsa": 10, "token=keyenc-only": 10, "revoked-tsa-under-revocation-skip": 5, "tsarev=revoked-later": 10, "constructor=legacy": 100, "real-directory-store": 100})
+  health={"expiry=past": 10, "expiry=future": 10, "scheme=sa": 20, "tsa=applies": 30, "token=valid": 10, "token=absent": 5, "token=wrong-imprint": 5, "token=untrusted-tsa": 5, "ts=pass": 10, "ts=fail": 10, "token=ca-as-tsa": 10, "token=keyenc-only": 10, "token=replayed": 10, "token=tsa-under-codesigning-ca": 5, "revoked-tsa-under-revocation-skip": 5, "tsarev=revoked-later": 10, "constructor=legacy": 100, "real-directory-store": 100})
 
 P("C07",
   technique="round-trip PBT: sign with the real signing API (local + honest in-process plugin signers) then verify; payload/digest/expiry/descriptor/metadata compared with the harness's own computation; reused plugin signer across keys, earlier untrusted signature of the other format, large metadata through the library's repository client, failing blob sources; plugins that answer one command once with a retryable error; overlapping Sign calls on one signer with the schedule owned through a yielding context logger and plugin",
@@ -63,7 +63,7 @@ P("C07",
   shards={"quick": 12, "thorough": 16})
 
 P("C08",
-  technique="model-based + metamorphic PBT: confusable scope alphabet, all statement permutations, generated references; exact-membership model; mutation-isolation (private copy) oracle via deep snapshots; verifier objects reused across references of one artifact digest; documents with two fallback statements must be unusable",
+  technique="model-based + metamorphic PBT: confusable scope alphabet, all statement permutations, generated references; exact-membership model; mutation-isolation (private copy) oracle via deep snapshots; verifier objects reused across references of one artifact digest; documents with two fallback statements must be unusable; refusal through notation.Verify over an unreachable registry",
   level_text="Exploration (cheap, very many cases): selection compared with an exact-membership model on generated valid documents and references, permutation invariance, and deep-mutation of every returned statement followed by snapshot comparison.",
   level_note="Repository paths are known well-formed by construction; trusts reflect.DeepEqual for snapshots.",
   health={"hit=exact": 100, "hit=wildcard": 100, "hit=none": 100, "ref=nearmiss": 100, "ref=variant": 100, "ref=shape": 100,
@@ -71,7 +71,7 @@ P("C08",
           "privacy-mutation": 100, "privacy=oci": 50, "privacy=blob": 50, "privacy=global": 50,
           "place=override-map/add-key": 50, "place=override-map/change-values": 50, "place=registryScopes/elements": 50,
           "place=trustStores/append": 50, "place=trustedIdentities/elements": 50,
-          "via=verifier": 100, "via=verify": 50, "via=skipverify": 50, "via=verifyblob": 50, "verify=ok": 50, "verifier:refused": 50, "verifier:reused-for-other-references": 500, "two-fallback-statements:oci": 50, "two-fallback-statements:blob": 20})
+          "via=verifier": 100, "via=verify": 50, "via=skipverify": 50, "via=verifyblob": 50, "verify=ok": 50, "verifier:refused": 50, "verifier:reused-for-other-references": 500, "two-fallback-statements:oci": 50, "two-fallback-statements:blob": 20, "via=notation.Verify-unreachable-registry": 100, "registry-entry:hit=none": 20})
 
 P("C09",
   technique="grammar-based PBT with rule-violation operators: valid documents from a grammar + 0..2 labelled violating edits; accept iff zero edits (validity known by construction); native fuzz over policy JSON in thorough",
@@ -181,7 +181,7 @@ P("C17",
           "stdout=valid": 20, "stdout=nonjson": 5, "stdout=empty": 5, "stdout=fieldtype": 5, "stdout=wrongname": 2, "stdout=badversion": 2,
           "stdout=missing-name": 2, "stdout=empty-url": 2, "stdout=missing-supportedContractVersions": 2, "stdout=empty-capabilities": 2,
           "stderr=structured": 20, "stderr=nonjson": 10, "stderr=empty": 10, "errcode=THROTTLED": 2,
-          "stdout=overcap": 1, "stderr=overcap": 1, "timing=descendant": 1, "timing=slow": 1, "timing=cancel": 1, "timing=nodeadline": 1, "interleaved-calls": 10, "concurrent-calls": 1, "failing-fast-judged-in-full": 6, "descendant-left-the-process-group": 2, "plugin-object-served-a-complete-metadata-reply-before": 50, "structured-error-with-large-message": 5},
+          "stdout=overcap": 1, "stderr=overcap": 1, "timing=descendant": 1, "timing=slow": 1, "timing=cancel": 1, "timing=nodeadline": 1, "interleaved-calls": 10, "concurrent-calls": 1, "failing-fast-judged-in-full": 6, "descendant-left-the-process-group": 2, "plugin-object-served-a-complete-metadata-reply-before": 50, "structured-error-with-large-message": 5, "executable-is-a-link-to-a-differently-named-file": 2},
   timeout={"quick": 900, "thorough": 5400})
 
 P("C18",
@@ -204,7 +204,7 @@ P("C19",
   technique="stateful model-based PBT (rapid state machine of pushes / foreign and hostile referrers / reopen / list / fetch) over an on-disk OCI layout and an in-memory store; multiset model of signatures per subject; blob-cap boundary with real content; returned slices held across later calls; push descriptors that lie about the artifact type; second state machine over registry.NewOCIRepository with the layout read back through handles opened after the pushes",
   level_text="Exploration over push histories: listing and fetching compared with a model multiset per subject; hostile referrers must be refused before their content is read (blob-fetch log).",
   level_note="One oci.Store instance per session (oras behaviour); trusts oras-go's store for the non-notation parts.",
-  health={"store=disk": 100, "store=memory": 100, "subjects>=2": 100, "subjects-same-content": 50, "reopened": 20, "layout-listed-through-another-handle-after-push": 30, "layout-pushed-through-several-handles": 20, "many-signatures": 20, "signatures-of-one-artifact>=9": 5, "signatures-of-one-artifact>=33": 1,
+  health={"store=disk": 100, "store=memory": 100, "subjects>=2": 100, "subjects-same-content": 50, "reopened": 20, "layout-listed-through-another-handle-after-push": 30, "layout-pushed-through-several-handles": 20, "many-signatures": 20, "signature-pushed-for-descriptor-sharing-only-the-digest": 20, "signatures-of-one-artifact>=9": 5, "signatures-of-one-artifact>=33": 1,
           "op=push-signature": 500, "op=push-foreign": 300, "op=push-hostile": 300, "op=list": 1000, "op=fetch": 1000, "op=fetch:kept": 100,
           "op=fetch-hostile": 300, "op=reopen": 50, "env=1B": 20, "env=256KiB": 20,
           "op=push-foreign:other-type": 30, "op=push-foreign:legacy-other-type": 30, "op=push-foreign:legacy-notation": 30,
@@ -223,7 +223,7 @@ P("C20",
           "op=uninstall": 20, "uninstall=installed": 10, "op=get": 20, "op=list": 20,
           "version-relation=lt": 10, "version-relation=eq": 10, "version-relation=gt": 10, "version-relation=invalid": 10,
           "shape:subdirs": 10, "shape:extra-files": 10, "semver-pair-valid": 5000, "semver-pair-with-invalid": 2000,
-          "semver-equal-but-different-text": 200, "semver-with-prerelease": 2000, "source-path-spelling=double-slash": 20, "meta=trailing": 20, "meta=misnamed-case": 20, "source-rewritten-in-place-after-install": 50, "version-relation=old-invalid": 5},
+          "semver-equal-but-different-text": 200, "semver-with-prerelease": 2000, "source-path-spelling=double-slash": 20, "meta=trailing": 20, "meta=misnamed-case": 20, "source-rewritten-in-place-after-install": 50, "version-relation=old-invalid": 5, "plugin-root-spelt-relative": 50, "source-path-spelling=relative": 20},
   fuzz=[{"name": "FuzzC20_Semver", "seconds": 120}],
   timeout={"quick": 900, "thorough": 5400})
 
